@@ -1,14 +1,16 @@
 (* VamDefragNp.v — C13 for the defragmentation calls (defragmentation.go, block_list.go defrag part):
-   BeginDefragmentation, EndDefragPass and Finish never panic and never leave the model; BeginDefragPass never
-   panics, and leaves the model (RStuck) only when a vkMapMemory issued by the pass failed (the model does not
-   follow the real code there: the real code skips that move and goes on, see VamDefrag.commit_move).
+   BeginDefragmentation, BeginDefragPass, EndDefragPass and Finish never panic and never leave the model, whatever the
+   driver faults.  For BeginDefragPass this includes a vkMapMemory that fails while a move is committed: the planner
+   (Defrag.collect_moves_f) goes on to the next candidate like the real code, and the replay of its attempt log on the
+   allocator state repeats the commit oracle's computations exactly (replay_np over VamDefragSim.sim and the planner's
+   trace theorem DefragGranProofs.collect_moves_f_strace), so it never disagrees with it.
    dop_live: a run exists for DPass / DEnd / DFin. *)
 From Coq Require Import ZArith List Bool Lia Permutation.
 From Arsenal Require Import Util Budget BudgetProofs VamDev VamBlockList VamDefrag Vam VamInvMeta VamInv VamInvUpd VamInvDev.
 From Arsenal Require Import VamInvStep VamInvStep2 VamInvThm VamProps VamAcct VamAcctStep VamAcctStep2 VamAcctThm VamMap VamMapStep VamMapStep2 VamMapThm.
 From Arsenal Require Import VamBal VamBalStep VamBalStep2 VamBalThm VamNpStep VamNpThm.
 From Arsenal Require Import VamDefragInv VamDefragStep VamDefragPass VamDefragThm VamDefragAcct VamDefragMap VamDefragBal.
-From Arsenal Require Pass PassProofs Defrag DefragProofs SyncMem SyncMemProofs.
+From Arsenal Require Pass PassProofs Defrag DefragProofs DefragGranProofs SyncMem SyncMemProofs VamDefragBridge VamDefragSim VamFlush.
 Import ListNotations.
 Open Scope Z_scope.
 
@@ -164,29 +166,9 @@ Qed.
 (* a persistently mapped Allocation allows mapping *)
 Definition pa_ok (v : vam) : Prop := forall s a, slot_is v s a -> a_persist a = true -> a_mapallowed a = true.
 
-(* the result of a collecting step: never a panic; outside the model only after a failed vkMapMemory *)
+(* the result of a collecting step (kept for reference: before the planner followed failing commits, a failed vkMapMemory
+   inside BeginDefragPass left the model) *)
 Definition np_map (w : vam) {A} (r : out A) : Prop := r <> PANIC /\ (r = STUCK -> map_failed (v_m w)).
-
-Lemma commit_move_np w lr mv l b :
-  MM ms0 w [] -> get_blist w lr = Some l -> get_block w lr (Defrag.m_dstblk mv) = Some b ->
-  Z.of_nat (Defrag.m_tmp mv) = zlen (v_tab w) ->
-  (a_persist (get_alloc w (Z.of_nat (Defrag.m_src mv))) = true -> a_mapallowed (get_alloc w (Z.of_nat (Defrag.m_src mv))) = true) ->
-  let '(w', r) := commit_move c w lr mv in np_map w' r.
-Proof.
-  intros HM Hg Hgb Et Hpa. unfold commit_move. rewrite Hg, Hgb. rewrite Et, Z.eqb_refl. cbn [negb].
-  destruct (get_block_in _ _ _ _ Hgb) as (l' & Hg' & Hb & Hbid). assert (l' = l) by congruence. subst l'. clear Hg'.
-  pose proof (sm_sub_M ms0 (v_m w) (bk_mem b) (bk_sm b) (proj2 HM) (mi_blocks _ _ (proj1 HM) _ _ _ Hg Hb)) as Psub.
-  destruct (sm_sub (v_m w) (bk_mem b) (bk_sm b)) as (m1 & s1). destruct Psub as (_ & Hok1 & _).
-  destruct (a_persist (get_alloc w (Z.of_nat (Defrag.m_src mv)))) eqn:Ep.
-  - rewrite (Hpa eq_refl). cbn [negb andb].
-    pose proof (sm_map_fail m1 (bk_mem b) s1 Hok1) as F. pose proof (sm_map_np c m1 (bk_mem b) s1) as N.
-    destruct (sm_map c m1 (bk_mem b) s1) as ((m2 & s2) & mr). cbn [snd] in N.
-    assert (Em : v_m (put_block (set_m w m2) lr (mkBlock (bk_id b) (bk_mem b) s2 (bk_meta b))) = m2) by (rewrite put_block_m; reflexivity).
-    destruct mr as [[]|code| |]; [split; [discriminate|discriminate]| |destruct N; congruence|destruct N; congruence].
-    split; [discriminate|]. intros _. rewrite Em. destruct F as [F|F]; [discriminate|exact F].
-  - cbn [andb]. split; discriminate.
-Qed.
-
 
 Definition mv_pre (v1 : vam) (l1 : blist) (mv : Defrag.move) : Prop :=
   src_of mv < zlen (v_tab v1) /\ In (Defrag.m_dstblk mv) (map bk_id (bl_blocks l1)) /\
@@ -195,80 +177,91 @@ Definition mv_pre (v1 : vam) (l1 : blist) (mv : Defrag.move) : Prop :=
 Lemma in_ids_block bs id : In id (map bk_id bs) -> exists b, In b bs /\ bk_id b = id.
 Proof using. clear G. intros H. apply in_map_iff in H. destruct H as (b & E & Hb). eauto. Qed.
 
-Lemma commit_moves_np mvs : forall v1 w lr l1 done,
-  cm_rel v1 w lr l1 done -> NoDup (map bk_id (bl_blocks l1)) -> MM ms0 w [] -> NA w ->
-  Forall (mv_pre v1 l1) mvs ->
-  map tmp_of mvs = map (fun i => zlen (v_tab v1) + zlen done + Z.of_nat i) (seq 0 (length mvs)) ->
-  let '(w', r) := commit_moves c w lr mvs in np_map w' r.
-Proof.
-  induction mvs as [|mv tl IH]; intros v1 w lr l1 done R Hnd HM HN Hpre Htmp; cbn [commit_moves]; [split; discriminate|].
-  inversion Hpre as [|? ? (Hs1 & Hd1 & Hp1) Hpre']; subst.
-  cbn [map length seq] in Htmp. injection Htmp as Et Htl.
-  pose proof R as [(lw & Hgw & Hcfg & Hids & Hbl) Hoth Hrest Hmach (tmps & Htab & Htmps)].
-  assert (Hndw : NoDup (map bk_id (bl_blocks lw))) by (rewrite Hids; exact Hnd).
-  rewrite <- Hids in Hd1. destruct (in_ids_block _ _ Hd1) as (b & Hb & Hbid).
-  assert (Hgb : get_block w lr (Defrag.m_dstblk mv) = Some b) by (rewrite <- Hbid; apply (VamFlush.get_block_of w lr lw b Hgw Hndw Hb)).
-  assert (Ez : Z.of_nat (Defrag.m_tmp mv) = zlen (v_tab w)).
-  { unfold tmp_of in Et. rewrite Et, Htab. unfold zlen. rewrite app_length, (Forall2_len _ _ _ Htmps). lia. }
-  assert (Esrc : get_alloc w (Z.of_nat (Defrag.m_src mv)) = get_alloc v1 (src_of mv)).
-  { unfold get_alloc. fold (src_of mv). rewrite Htab, nth_z_app_old by exact Hs1. reflexivity. }
-  pose proof (commit_move_np w lr mv lw b HM Hgw Hgb Ez ltac:(rewrite Esrc; exact Hp1)) as N.
-  pose proof (commit_move_rel c v1 w lr l1 done mv R Hnd Hs1) as PR.
-  pose proof (VamDefragMap.commit_move_MM c Hc Hmax Hlarge ms0 w lr mv HM HN) as PM.
-  destruct (commit_move c w lr mv) as (w1 & r). destruct r as [[]|code| |]; try exact N.
-  destruct PR as (R1 & _). destruct PM as (M1 & N1).
-  apply (IH v1 w1 lr l1 (done ++ [mv]) R1 Hnd M1 N1 Hpre').
-  rewrite Htl, <- seq_shift, map_map. apply map_ext. intros i. unfold zlen. rewrite app_length. cbn [length]. lia.
-Qed.
-
 Lemma seq_of_nat n len : map Z.of_nat (seq n len) = map (fun i => Z.of_nat n + Z.of_nat i) (seq 0 len).
 Proof using.
   clear G. revert n. induction len as [|k IH]; intros n; cbn [seq map]; [reflexivity|]. f_equal; [lia|].
   rewrite IH, <- seq_shift, map_map. apply map_ext. intros i. lia.
 Qed.
 
-(* the commits after the write-back of one collecting step *)
-Lemma collect_commit_np v dc p l bl cs new :
-  VamInv c v -> MM ms0 v [] -> get_blist v (dc_lr dc) = Some l -> project_blocks (bl_blocks l) = Some bl ->
-  DefragProofs.WF (Defrag.mkD bl (map (project_entry (dc_lr dc)) (v_tab v)) false) ->
-  DefragProofs.CInv (Defrag.mkD bl (map (project_entry (dc_lr dc)) (v_tab v)) false) (Defrag.c_moves (dc_ctx dc)) p
-                    (Defrag.indexed (Defrag.mkD bl (map (project_entry (dc_lr dc)) (v_tab v)) false)) cs new ->
-  pa_ok v ->
-  let '(v2, r) := commit_moves c (set_blist v (dc_lr dc) (set_blocks l (unproject_blocks (bl_blocks l) (Defrag.d_blocks (Defrag.cs_st cs)))))
-                               (dc_lr dc) new in np_map v2 r.
-Proof.
-  intros HI HM Hg Epb HW HC Hpa.
-  set (st := Defrag.mkD bl (map (project_entry (dc_lr dc)) (v_tab v)) false) in *.
-  set (bl' := Defrag.d_blocks (Defrag.cs_st cs)). set (l1 := set_blocks l (unproject_blocks (bl_blocks l) bl')). set (v1 := set_blist v (dc_lr dc) l1).
-  pose proof (DefragProofs.ci_ext _ _ _ _ _ _ HC) as He.
-  pose proof (vi_lists _ _ _ _ HI _ _ Hg) as Hwf. pose proof (bw_nodup _ _ Hwf) as Hnd.
-  destruct (project_blocks_spec _ _ Epb) as (Hids & _).
-  assert (Hids' : map fst bl' = map bk_id (bl_blocks l)) by (destruct He as (E & _); unfold bl'; rewrite E; exact Hids).
-  assert (Hg1 : get_blist v1 (dc_lr dc) = Some l1) by (eapply get_set_blist_same; eauto).
-  assert (Hnd1 : NoDup (map bk_id (bl_blocks l1))) by (unfold l1; cbn; rewrite unproject_ids; exact Hnd).
-  assert (Htab1 : v_tab v1 = v_tab v) by apply set_blist_tab.
-  assert (Hun : forall b1, In b1 (bl_blocks l1) -> exists b, In b (bl_blocks l) /\ bk_id b = bk_id b1 /\ bk_mem b = bk_mem b1 /\ bk_sm b = bk_sm b1).
-  { intros b1 Hb1. unfold l1 in Hb1. cbn in Hb1. unfold unproject_blocks in Hb1. apply in_map_iff in Hb1. destruct Hb1 as (b & <- & Hb).
-    exists b. split; [exact Hb|]. destruct (Defrag.find_id (bk_id b) bl'); cbn; auto. }
-  assert (M1 : MM ms0 v1 []).
-  { apply (MM_lists ms0 v []); [exact HM|apply set_blist_m|apply tab_frame_set_blist|].
-    apply (blocks_sub_set_blist v (dc_lr dc) l _ Hg). intros b1 Hb1. destruct (Hun b1 Hb1) as (b & Hb & _ & E1 & E2). exists b. auto. }
-  assert (N1 : NA v1).
-  { apply (NA_sub c Hc Hmax Hlarge v); [apply (NA_inv c Hc Hmax Hlarge v [] []); exact HI| |].
-    - intros lr0 l0 G0. destruct (get_set_blist_cases v (dc_lr dc) l l1 lr0 l0 Hg G0) as [(-> & ->)|(Hne & G1)].
-      + exists l. split; [exact Hg|]. split; [unfold l1; cbn; apply unproject_ids|]. intros b1 Hb1. destruct (Hun b1 Hb1) as (b & Hb & E0 & E1 & _). exists b. auto.
-      + exists l0. split; [exact G1|]. split; [reflexivity|]. intros b' Hb'. exists b'. auto.
-    - intros s a Sa _. unfold slot_is, v1 in *. rewrite set_blist_tab in Sa. exact Sa. }
-  apply (commit_moves_np new v1 v1 (dc_lr dc) l1 [] (cm_rel_init v1 (dc_lr dc) l1 Hg1) Hnd1 M1 N1).
-  - apply Forall_forall. intros m Hm.
-    destruct (tmp_region_exists st (Defrag.c_moves (dc_ctx dc)) p _ cs new m HW eq_refl HC Hm) as (t & t' & es & F & F' & E1 & E2 & E3 & E4 & E5 & Hlen & Hin).
-    destruct (entry_project _ _ _ _ _ _ E1) as (a & Sa & Ka & La & ->).
-    split; [rewrite Htab1; apply (slot_is_range _ _ _ Sa)|]. split.
-    + unfold l1. cbn [bl_blocks set_blocks]. rewrite unproject_ids, <- Hids'. fold bl' in F'. apply (DefragProofs.find_id_some_in _ _ _ F').
-    + unfold get_alloc. rewrite Htab1. fold (get_alloc v (src_of m)). unfold src_of. rewrite (get_alloc_slot _ _ _ Sa). apply (Hpa _ _ Sa).
-  - destruct (DefragProofs.ci_reg _ _ _ _ _ _ HC) as [_ Htm _].
-    unfold tmp_of. rewrite <- (map_map Defrag.m_tmp Z.of_nat), Htm, seq_of_nat. apply map_ext. intros i.
-    rewrite Htab1. unfold st. cbn [Defrag.d_table]. rewrite map_length. unfold zlen. cbn [length]. lia.
+(* ---- the replay of the attempt log agrees with the oracle *)
+
+Definition has_block (e : vam) (lr : lref) (id : Z) : Prop := exists b, get_block e lr id = Some b.
+
+Lemma find_block_replace l nb id b : find_block l id = Some b -> exists b', find_block (replace_block l nb) id = Some b'.
+Proof using.
+  clear G. induction l as [|x l IH]; cbn [find_block replace_block]; [discriminate|]. destruct (bk_id x =? id) eqn:E.
+  - intros _. destruct (bk_id x =? bk_id nb) eqn:E2; cbn [find_block].
+    + apply Z.eqb_eq in E, E2. replace (bk_id nb =? id) with true by (symmetry; apply Z.eqb_eq; lia). eauto.
+    + rewrite E. eauto.
+  - intros H. destruct (bk_id x =? bk_id nb) eqn:E2; cbn [find_block].
+    + apply Z.eqb_eq in E2. replace (bk_id nb =? id) with false by (symmetry; apply Z.eqb_neq; apply Z.eqb_neq in E; lia). eauto.
+    + rewrite E. apply IH. exact H.
+Qed.
+
+Lemma commit_attempt_has_block e lr slot dst id : has_block e lr id -> has_block (fst (commit_attempt c e lr slot dst)) lr id.
+Proof using.
+  clear G. intros (b0 & H0). unfold commit_attempt. destruct (get_block e lr dst) as [b|] eqn:Hgb; [|exists b0; exact H0].
+  destruct (sm_sub _ _ _) as (m1 & s1). destruct (if a_persist _ then _ else _) as ((m2 & s2) & mr). cbn [fst].
+  unfold has_block, get_block in *. destruct (get_blist e lr) as [l|] eqn:Hg; [|discriminate].
+  assert (Hgm : get_blist (set_m e m2) lr = Some l) by (rewrite get_blist_set_m; exact Hg).
+  rewrite (VamDefragSim.put_block_get _ _ _ _ Hgm). cbn [bl_blocks set_blocks]. eapply find_block_replace; eauto.
+Qed.
+
+Lemma commit_attempt_npu e lr slot dst : has_block e lr dst -> npu (snd (commit_attempt c e lr slot dst)).
+Proof using.
+  clear G. intros (b & Hb). unfold commit_attempt. rewrite Hb. destruct (sm_sub _ _ _) as (m1 & s1).
+  destruct (a_persist _); [|apply npu_ok]. pose proof (sm_map_np c m1 (bk_mem b) s1) as N. destruct (sm_map c m1 (bk_mem b) s1) as ((m2 & s2) & mr). exact N.
+Qed.
+
+Lemma att_commit_fst lr e slot dst : fst (att_commit c lr e slot dst) = fst (commit_attempt c e lr slot dst).
+Proof using. clear G. unfold att_commit. destruct (commit_attempt c e lr slot dst) as (e' & r). reflexivity. Qed.
+
+Lemma att_commit_snd lr e slot dst : snd (att_commit c lr e slot dst) = true <-> snd (commit_attempt c e lr slot dst) = OK tt.
+Proof using.
+  clear G. unfold att_commit. destruct (commit_attempt c e lr slot dst) as (e' & r). cbn [snd]. destruct r as [[]|code| |]; split; intros H; try discriminate; reflexivity.
+Qed.
+
+Definition pa_slot (e : vam) (s : Z) : Prop := a_persist (get_alloc e s) = true -> a_mapallowed (get_alloc e s) = true.
+
+Lemma replay_np lr n log : forall e e' w,
+  DefragGranProofs.strace vam (att_commit c lr) e log e' ->
+  VamDefragSim.sim e w lr n -> n <= zlen (v_tab w) ->
+  Forall (fun a => Z.of_nat (DefragGranProofs.at_slot a) < n /\ has_block e lr (Defrag.at_dst a) /\ pa_slot e (Z.of_nat (DefragGranProofs.at_slot a))) log ->
+  map tmp_of (Defrag.log_moves log) = map (fun i => zlen (v_tab w) + Z.of_nat i) (seq 0 (length (Defrag.log_moves log))) ->
+  npu (snd (replay_log c w lr log)).
+Proof using.
+  clear G. intros e e' w T. revert w. induction T as [e|e s d tl e' Hatt T IH|e m tl e' Hatt T IH]; intros w S Hn Hall Htmp; cbn [replay_log].
+  - apply npu_ok.
+  - inversion Hall as [|? ? (Hs & Hb & _) Hall']; subst. cbn [DefragGranProofs.at_slot Defrag.at_dst] in Hs, Hb.
+    destruct (VamDefragSim.attempt_sim c e w lr n s d S Hs) as (Er & S1).
+    pose proof (commit_attempt_npu e lr s d Hb) as (N1 & N2).
+    pose proof (VamDefragSim.commit_attempt_tab c w lr s d) as Etw. pose proof (VamDefragSim.commit_attempt_tab c e lr s d) as Ete.
+    assert (Hno : snd (commit_attempt c e lr s d) <> OK tt) by (intros E; apply (att_commit_snd lr e s d) in E; congruence).
+    rewrite att_commit_fst in IH.
+    destruct (commit_attempt c w lr s d) as (w1 & r). cbn [fst snd] in *. rewrite Er.
+    destruct (snd (commit_attempt c e lr s d)) as [[]|code| |]; try congruence.
+    apply IH; [exact S1|rewrite Etw; exact Hn| |rewrite Etw; exact Htmp].
+    eapply Forall_impl; [|exact Hall']. intros a (A1 & A2 & A3). split; [exact A1|]. split; [apply commit_attempt_has_block; exact A2|].
+    unfold pa_slot, get_alloc. rewrite Ete. exact A3.
+  - inversion Hall as [|? ? (Hs & Hb & Hpa) Hall']; subst. cbn [DefragGranProofs.at_slot Defrag.at_dst] in Hs, Hb, Hpa.
+    cbn [Defrag.log_moves map length seq] in Htmp. injection Htmp as Et Htl.
+    apply (att_commit_snd lr e (Defrag.m_src m) (Defrag.m_dstblk m)) in Hatt.
+    destruct (VamDefragSim.commit_move_sim c e w lr n m S Hs Hn Hatt ltac:(unfold tmp_of in Et; lia) Hpa) as (Eok & S1).
+    pose proof (VamDefragSim.commit_attempt_tab c e lr (Defrag.m_src m) (Defrag.m_dstblk m)) as Ete.
+    rewrite att_commit_fst in IH.
+    assert (Etw : zlen (v_tab (fst (commit_move c w lr m))) = zlen (v_tab w) + 1).
+    { pose proof (VamDefragAcct.commit_moves_len c [m] w lr) as L. cbn [commit_moves] in L. destruct (commit_move c w lr m) as (w1 & r). cbn [fst snd] in *. subst r. cbn [length] in L. lia. }
+    destruct (commit_move c w lr m) as (w1 & r). cbn [fst snd] in *. subst r.
+    apply IH; [exact S1|lia| |].
+    + eapply Forall_impl; [|exact Hall']. intros a (A1 & A2 & A3). split; [exact A1|]. split; [apply commit_attempt_has_block; exact A2|].
+      unfold pa_slot, get_alloc. rewrite Ete. exact A3.
+    + rewrite Htl, <- seq_shift, map_map. apply map_ext. intros i. lia.
+Qed.
+
+Lemma unproject_sim bs bl' : Forall2 VamDefragSim.bsim bs (unproject_blocks bs bl').
+Proof using.
+  clear G. unfold unproject_blocks. induction bs as [|b tl IH]; cbn [map]; constructor; [|exact IH].
+  unfold VamDefragSim.bsim. destruct (Defrag.find_id (bk_id b) bl'); cbn; auto.
 Qed.
 
 (* BlockListCollectMoves of one context *)
@@ -276,7 +269,7 @@ Lemma collect_list_np v dc p :
   VamInv c v -> MM ms0 v [] -> Defrag.c_moves (dc_ctx dc) = [] -> PassProofs.pass_running p ->
   (forall l, get_blist v (dc_lr dc) = Some l -> bl_gran l = 1) ->
   projectable v (dc_lr dc) -> (Defrag.c_algo (dc_ctx dc) = 1 \/ Defrag.c_algo (dc_ctx dc) = 2) -> pa_ok v ->
-  let '(v', r) := collect_list c v dc p in np_map v' r.
+  npu (snd (collect_list c v dc p)).
 Proof.
   intros HI HM Hidle Hrun HG1 Hproj Halgo Hpa. unfold collect_list.
   destruct (projectable_project v (dc_lr dc) Hproj) as (l & st & Hg & Ep). rewrite Ep, Hg.
@@ -285,31 +278,34 @@ Proof.
   { unfold project in Ep. rewrite Hg in Ep. destruct (project_blocks (bl_blocks l)) as [bl|]; [|discriminate]. injection Ep as <-. eauto. }
   destruct Est as (bl & Epb & ->).
   set (st := Defrag.mkD bl (map (project_entry (dc_lr dc)) (v_tab v)) false) in *.
-  destruct (DefragProofs.collect_moves_inv st (dc_ctx dc) p HW Hrun) as (new & HC & _).
-  (* the planner does not panic *)
-  assert (Hnp : forall w, snd (Defrag.collect_moves st (dc_ctx dc) p) <> Defrag.WPanic w).
-  { intros w. unfold Defrag.collect_moves. rewrite Hidle.
-    set (cs0 := Defrag.mkCS st [] p).
-    pose proof (DefragProofs.cinv_init st [] p (Defrag.indexed st) HW Hrun) as HC0. fold cs0 in HC0.
-    assert (Hwalk : forall algo, snd (Defrag.walk_blocks (Defrag.walk_fuel st) algo (Defrag.indexed st) cs0
-                                        (rev (skipn (Z.to_nat (Defrag.c_immovable (dc_ctx dc))) (Defrag.indexed st)))) <> Defrag.WPanic w).
-    { intros algo. unfold Defrag.indexed in *.
-      apply (DefragProofs.walk_blocks_total st [] p (map fst (Defrag.d_blocks st)) algo _ cs0 [] HC0 eq_refl (DefragProofs.wb_ids _ (DefragProofs.wf_b _ HW))).
-      - intros x. apply DefragProofs.srcs_in.
-      - apply DefragProofs.srcs_desc.
-      - intros m x [].
-      - exact Hrun. }
-    destruct (1 <? Util.zlen (Defrag.d_blocks st)).
-    - destruct Halgo as [-> | ->]; cbn [Z.eqb Pos.eqb]; apply Hwalk.
-    - destruct (_ && _); [apply Hwalk|discriminate]. }
-  destruct (Defrag.collect_moves st (dc_ctx dc) p) as (cs & wr). cbn [fst snd] in HC, Hnp.
-  destruct wr as [| |why]; [| |exfalso; exact (Hnp why eq_refl)].
-  all: pose proof (DefragProofs.ci_moves _ _ _ _ _ _ HC) as Hms; rewrite Hidle in Hms; cbn [app] in Hms; rewrite Hidle; cbn [length skipn]; rewrite Hms.
-  all: set (bl' := Defrag.d_blocks (Defrag.cs_st cs)); set (l1 := set_blocks l (unproject_blocks (bl_blocks l) bl')); set (v1 := set_blist v (dc_lr dc) l1).
-  all: assert (PC : let '(v2, r) := commit_moves c v1 (dc_lr dc) new in np_map v2 r) by
-         (apply (collect_commit_np v dc p l bl cs new HI HM Hg Epb HW HC Hpa)).
-  all: destruct (commit_moves c v1 (dc_lr dc) new) as (v2 & r); destruct r as [[]|code| |];
-       [split; discriminate|split; discriminate|destruct PC as (A & _); congruence|split; [discriminate|intros _; apply (proj2 PC eq_refl)]].
+  destruct (VamDefragBridge.collect_moves_f_inv_g1 vam (att_commit c (dc_lr dc)) st (dc_ctx dc) p v HW Hrun) as (new & HC & _).
+  destruct (VamDefragBridge.collect_moves_f_log_g1 vam (att_commit c (dc_lr dc)) st (dc_ctx dc) p v) as (Hlg & Hdst).
+  destruct (VamDefragBridge.collect_moves_f_strace_g1 vam (att_commit c (dc_lr dc)) st (dc_ctx dc) p v HW Hrun) as (HT & Hsl).
+  pose proof (VamDefragBridge.collect_f_never_panics_g1 vam (att_commit c (dc_lr dc)) st (dc_ctx dc) p v HW Hrun Halgo) as Hnp.
+  destruct (Defrag.collect_moves_f vam (att_commit c (dc_lr dc)) st (dc_ctx dc) p v) as (((cs & env) & log) & wr).
+  unfold Defrag.res_f, Defrag.log_f, Defrag.env_f in *. cbn [fst snd] in *.
+  pose proof (DefragProofs.ci_moves _ _ _ _ _ _ HC) as Hms. rewrite Hidle in Hms, Hlg. cbn [app] in Hms, Hlg.
+  assert (Hnew : new = Defrag.log_moves log) by congruence.
+  set (bl' := Defrag.d_blocks (Defrag.cs_st cs)). set (l1 := set_blocks l (unproject_blocks (bl_blocks l) bl')). set (v1 := set_blist v (dc_lr dc) l1).
+  assert (PR : npu (snd (replay_log c v1 (dc_lr dc) log))).
+  { apply (replay_np (dc_lr dc) (zlen (v_tab v)) log v env v1 HT).
+    - constructor.
+      + unfold v1. rewrite set_blist_m, VamDefragSim.set_bud_self. reflexivity.
+      + exists l, l1. split; [exact Hg|]. split; [unfold v1; eapply get_set_blist_same; eauto|]. unfold l1. cbn [bl_blocks set_blocks]. apply unproject_sim.
+      + intros s _. unfold get_alloc, v1. rewrite set_blist_tab. reflexivity.
+    - unfold v1. rewrite set_blist_tab. lia.
+    - rewrite Forall_forall in *. intros a Ha. destruct (Hsl a Ha) as (es & E1 & _). subst st.
+      destruct (entry_project _ _ _ _ _ _ E1) as (a0 & Sa & _). split; [apply (slot_is_range _ _ _ Sa)|].
+      split; [|unfold pa_slot; rewrite (get_alloc_slot _ _ _ Sa); apply (Hpa _ _ Sa)].
+      specialize (Hdst a Ha). cbn [Defrag.d_blocks] in Hdst. destruct (project_blocks_spec _ _ Epb) as (Hids & _). rewrite Hids in Hdst.
+      destruct (in_ids_block _ _ Hdst) as (b & Hb & Hbid). exists b. rewrite <- Hbid.
+      apply (VamFlush.get_block_of v (dc_lr dc) l b Hg (bw_nodup _ _ (vi_lists _ _ _ _ HI _ _ Hg)) Hb).
+    - rewrite <- Hnew. destruct (DefragProofs.ci_reg _ _ _ _ _ _ HC) as [_ Htm _].
+      unfold tmp_of. rewrite <- (map_map Defrag.m_tmp Z.of_nat), Htm, seq_of_nat. apply map_ext. intros i.
+      unfold v1. rewrite set_blist_tab. unfold st. cbn [Defrag.d_table]. rewrite map_length. unfold zlen. lia. }
+  destruct wr as [| |why]; [| |exfalso; exact (Hnp why eq_refl)];
+    (fold bl' l1 v1; destruct (replay_log c v1 (dc_lr dc) log) as (v2 & r); cbn [snd] in PR; destruct PR as (P1 & P2);
+     destruct r as [[]|code| |]; cbn [snd]; try congruence; split; discriminate).
 Qed.
 
 
@@ -327,7 +323,41 @@ Proof using.
   rewrite (IH Ht), andb_true_r. destruct (Defrag.find_id (bk_id b) bl'); [reflexivity|exact Hb].
 Qed.
 
-(* a collecting step that found nothing to move only wrote the TLSF states back *)
+Lemma replace_block_tlsf bs nb : forallb (fun b => is_tlsf (bk_meta b)) bs = true -> is_tlsf (bk_meta nb) = true ->
+  forallb (fun b => is_tlsf (bk_meta b)) (replace_block bs nb) = true.
+Proof using.
+  clear G. induction bs as [|b tl IH]; cbn [replace_block forallb]; [reflexivity|]. intros H Hn. apply andb_true_iff in H. destruct H as (Hb & Ht).
+  destruct (bk_id b =? bk_id nb); cbn [forallb]; [rewrite Hn, Ht; reflexivity|rewrite Hb, (IH Ht Hn); reflexivity].
+Qed.
+
+Lemma forallb_in {A} (f : A -> bool) l x : forallb f l = true -> In x l -> f x = true.
+Proof using. clear G. intros H Hx. rewrite forallb_forall in H. auto. Qed.
+
+Lemma commit_attempt_projectable w lr slot dst lr' : projectable w lr' -> projectable (fst (commit_attempt c w lr slot dst)) lr'.
+Proof using.
+  clear G. intros (l' & Hg' & Ht'). unfold commit_attempt. destruct (get_block w lr dst) as [b|] eqn:Hgb; [|exists l'; auto].
+  destruct (sm_sub _ _ _) as (m1 & s1). destruct (if a_persist _ then _ else _) as ((m2 & s2) & mr). cbn [fst].
+  destruct (get_block_in _ _ _ _ Hgb) as (l & Hg & Hb & Hbid).
+  assert (Hgm : get_blist (set_m w m2) lr = Some l) by (rewrite get_blist_set_m; exact Hg).
+  destruct (lref_eq_dec lr' lr) as [->|Hne].
+  - assert (l' = l) by congruence. subst l'. eexists. split; [apply (VamDefragSim.put_block_get _ _ _ _ Hgm)|]. cbn [bl_blocks set_blocks].
+    apply replace_block_tlsf; [exact Ht'|]. cbn [bk_meta]. apply (forallb_in _ _ _ Ht' Hb).
+  - exists l'. split; [|exact Ht']. rewrite put_block_other by exact Hne. rewrite get_blist_set_m. exact Hg'.
+Qed.
+
+(* a log without a successful commit: the replay leaves the Allocation table and the kinds of metadata alone *)
+Lemma replay_nomoves log : forall w lr w' r,
+  Defrag.log_moves log = [] -> replay_log c w lr log = (w', r) ->
+  v_tab w' = v_tab w /\ (forall lr', projectable w lr' -> projectable w' lr').
+Proof using.
+  clear G. induction log as [|[slot dst|mv] tl IH]; intros w lr w' r Hm E; cbn [replay_log Defrag.log_moves] in *; [injection E as <- _; auto| |discriminate].
+  pose proof (VamDefragSim.commit_attempt_tab c w lr slot dst) as Et. pose proof (commit_attempt_projectable w lr slot dst) as Hp.
+  destruct (commit_attempt c w lr slot dst) as (w1 & r1). cbn [fst] in *.
+  destruct r1 as [[]|code| |]; try (injection E as <- _; auto).
+  destruct (IH w1 lr w' r Hm E) as (A & B). split; [congruence|auto].
+Qed.
+
+(* a collecting step that found nothing to move only wrote the TLSF states back (and may have made failing commit attempts) *)
 Lemma collect_list_idle v dc p v1 dc' p' :
   collect_list c v dc p = (v1, OK (dc', p')) -> Defrag.c_moves (dc_ctx dc) = [] -> Defrag.c_moves (dc_ctx dc') = [] ->
   v_tab v1 = v_tab v /\ (forall lr', projectable v lr' -> projectable v1 lr') /\
@@ -337,9 +367,11 @@ Proof using.
   destruct (project v (dc_lr dc)) as [st|] eqn:Ep; [|discriminate]. destruct (get_blist v (dc_lr dc)) as [l|] eqn:Hg; [|discriminate].
   assert (Ht : forallb (fun b => is_tlsf (bk_meta b)) (bl_blocks l) = true).
   { unfold project in Ep. rewrite Hg in Ep. destruct (project_blocks (bl_blocks l)) as [bl|] eqn:E; [|discriminate]. eapply project_blocks_some_tlsf; eauto. }
-  destruct (Defrag.collect_moves st (dc_ctx dc) p) as (cs & wr). rewrite Hidle in H. cbn [length skipn] in H.
+  destruct (VamDefragBridge.collect_moves_f_log_g1 vam (att_commit c (dc_lr dc)) st (dc_ctx dc) p v) as (Hlg & _).
+  destruct (Defrag.collect_moves_f vam (att_commit c (dc_lr dc)) st (dc_ctx dc) p v) as (((cs & env) & log) & wr).
+  unfold Defrag.res_f, Defrag.log_f in Hlg. cbn [fst snd] in Hlg. rewrite Hidle in Hlg. cbn [app] in Hlg.
   set (l1 := set_blocks l (unproject_blocks (bl_blocks l) (Defrag.d_blocks (Defrag.cs_st cs)))) in *.
-  assert (Hfin : forall w r, commit_moves c (set_blist v (dc_lr dc) l1) (dc_lr dc) (Defrag.cs_moves cs) = (w, r) ->
+  assert (Hfin : forall w r, replay_log c (set_blist v (dc_lr dc) l1) (dc_lr dc) log = (w, r) ->
             match r with
             | OK _ => (w, OK (mkDfctx (dc_lr dc) (Defrag.mkC (Defrag.c_algo (dc_ctx dc)) (Defrag.cs_moves cs) (Defrag.c_immovable (dc_ctx dc))), Defrag.cs_pass cs))
             | PANIC => (w, PANIC) | ER code => (w, ER code) | STUCK => (w, STUCK)
@@ -347,13 +379,13 @@ Proof using.
             v_tab v1 = v_tab v /\ (forall lr', projectable v lr' -> projectable v1 lr') /\
             Defrag.c_algo (dc_ctx dc') = Defrag.c_algo (dc_ctx dc) /\ dc_lr dc' = dc_lr dc).
   { intros w r Ec E. destruct r as [[]|code| |]; try discriminate. injection E as <- <- _. cbn [dc_ctx dc_lr Defrag.c_moves Defrag.c_algo] in *.
-    rewrite Em in Ec. cbn [commit_moves] in Ec. injection Ec as <-.
-    split; [apply set_blist_tab|]. split; [|auto]. intros lr' (l' & Hg' & Ht').
+    rewrite Em in Hlg. destruct (replay_nomoves log _ _ _ _ (eq_sym Hlg) Ec) as (A & B).
+    split; [rewrite A; apply set_blist_tab|]. split; [|auto]. intros lr' (l' & Hg' & Ht'). apply B.
     destruct (lref_eq_dec lr' (dc_lr dc)) as [->|Hne].
     - exists l1. split; [eapply get_set_blist_same; eauto|]. unfold l1. cbn [bl_blocks set_blocks]. apply unproject_tlsf. exact Ht.
     - exists l'. split; [rewrite get_set_blist_other by congruence; exact Hg'|exact Ht']. }
   destruct wr as [| |why]; [| |discriminate];
-    (destruct (commit_moves c (set_blist v (dc_lr dc) l1) (dc_lr dc) (Defrag.cs_moves cs)) as (w & r) eqn:Ec; exact (Hfin w r eq_refl H)).
+    (destruct (replay_log c (set_blist v (dc_lr dc) l1) (dc_lr dc) log) as (w & r) eqn:Ec; exact (Hfin w r eq_refl H)).
 Qed.
 
 (* what BeginDefragPass needs of the block lists of the context (see the file comment of VamDefragNpThm.v) *)
@@ -365,20 +397,20 @@ Lemma pass_loop_np fuel : forall v run p,
   VamInv c v -> MM ms0 v [] -> run_idle run -> 0 <= dr_max_bytes run -> 0 <= dr_max_allocs run -> PassProofs.pass_running p ->
   lists_g1 v run -> dpass_inv v run ->
   (1 <= fuel)%nat -> (0 <= dr_progress run -> (length (dr_ctxs run) - Z.to_nat (dr_progress run) < fuel)%nat) ->
-  let '(v', run', r) := pass_loop c fuel v run p in np_map v' r.
+  npu (snd (pass_loop c fuel v run p)).
 Proof.
   clear G. induction fuel as [|f IH]; intros v run p HI HM Hidle Hb Ha Hrun HG HD Hf1 Hfuel; [lia|]. cbn [pass_loop].
-  destruct (nth_z (dr_ctxs run) (dr_progress run)) as [dc|] eqn:En; [|split; discriminate].
+  destruct (nth_z (dr_ctxs run) (dr_progress run)) as [dc|] eqn:En; [|apply npu_ok].
   assert (Hdc : Defrag.c_moves (dc_ctx dc) = []) by (eapply Hidle; eauto).
   destruct HD as (HDl & Hpa). destruct (HDl _ _ En) as (Hproj & Halgo).
   pose proof (collect_list_np v dc p HI HM Hdc Hrun (fun l Hl => HG _ _ _ En Hl) Hproj Halgo Hpa) as N.
   pose proof (VamDefragPass.collect_list_inv c v dc p HI Hdc Hrun (fun l Hl => HG _ _ _ En Hl)) as PS.
   pose proof (VamDefragMap.collect_list_MM c Hc Hmax Hlarge ms0 v dc p HI HM) as PM.
-  destruct (collect_list c v dc p) as (v1 & r) eqn:Ecl. destruct N as (N1 & N2).
-  destruct r as [(dc' & p')|code| |]; [|split; discriminate|congruence|split; [discriminate|intros _; apply N2; reflexivity]].
+  destruct (collect_list c v dc p) as (v1 & r) eqn:Ecl. cbn [snd] in N. destruct N as (N1 & N2).
+  destruct r as [(dc' & p')|code| |]; [|apply npu_er|congruence|congruence].
   destruct PS as (S1 & LS1 & GS1 & Elr & MS1 & Hrun').
   pose proof (nth_z_some_range _ _ _ En) as Hrg.
-  destruct (Defrag.c_moves (dc_ctx dc')) as [|m0 ms1] eqn:Em; [|split; discriminate].
+  destruct (Defrag.c_moves (dc_ctx dc')) as [|m0 ms1] eqn:Em; [|apply npu_ok].
   destruct (collect_list_idle v dc p v1 dc' p' Ecl Hdc Em) as (Htab & Hpr & Halg & _).
   match goal with |- context [pass_loop c f v1 ?rr p'] => set (run1 := rr) end.
   assert (Hidle1 : run_idle run1).
@@ -410,7 +442,7 @@ Qed.
 
 Lemma defrag_pass_np v run :
   VamInv c v -> MM ms0 v [] -> run_ok v run -> run_idle run -> lists_g1 v run -> dpass_inv v run ->
-  let '(v', run', r) := defrag_pass c v run in np_map v' r.
+  npu (snd (defrag_pass c v run)).
 Proof.
   clear G. intros HI HM (Hb & Ha & _) Hidle HG HD. unfold defrag_pass.
   apply pass_loop_np; auto; [apply PassProofs.pass_init_running; auto|lia|lia].
@@ -448,7 +480,7 @@ Let Hlarge := ca_large c Ha.
 
 Lemma dexec_np ms0 G v run o :
   VamBalStep.VamInvB c ms0 G v [] [] -> drun_ok v run -> dop_ok v run o -> tmps_unmapped G run -> dop_bal G run o -> dop_live v run o ->
-  let '(v', run', r, dr) := dexec c v run o in np_map v' r.
+  npu (snd (fst (dexec c v run o))).
 Proof using Ha.
   intros HI Hr Hok Htm Hbal Hlive. pose proof (va_s _ _ _ _ (VamDefragBal.vb_a c ms0 G _ HI)) as HU.
   destruct o as [flags pool mb ma| |ds|]; cbn [dexec].
@@ -460,8 +492,8 @@ Proof using Ha.
     destruct r as [rn|code| |]; try congruence; split; discriminate.
   - destruct run as [rn|]; [|destruct Hlive]. destruct Hok as (Hidle & HG). cbn [dop_live] in Hlive.
     pose proof (defrag_pass_np c Hc Hmax Hlarge ms0 v rn HU (VamDefragBal.vb_mmx c ms0 G _ HI) Hr Hidle HG Hlive) as N.
-    destruct (defrag_pass c v rn) as ((v1 & rn') & r). destruct N as (N1 & N2).
-    destruct r as [mvs|code| |]; [split; discriminate|split; discriminate|congruence|split; [discriminate|intros _; apply N2; reflexivity]].
+    destruct (defrag_pass c v rn) as ((v1 & rn') & r). cbn [snd] in N. destruct N as (N1 & N2).
+    destruct r as [mvs|code| |]; try congruence; split; discriminate.
   - destruct run as [rn|]; [|destruct Hlive].
     assert (HG0 : forall i dc m, nth_z (dr_ctxs rn) i = Some dc -> In m (Defrag.c_moves (dc_ctx dc)) -> G (src_of m) = 0 /\ G (tmp_of m) = 0).
     { intros i dc m Hn Hm. split; [eapply Hbal; eauto|eapply Htm; eauto]. }
@@ -475,8 +507,7 @@ Qed.
 Theorem dstep_np G v run o f :
   VamAcctStep.VamInvA c v [] [] -> MapInv v [] -> BInv v G [] -> drun_ok v run -> dop_ok v run o -> tmps_unmapped G run -> dop_bal G run o ->
   dop_live v run o ->
-  let '(v', run', r, calls, dr) := dstep c v run o f in
-  r <> RPanic /\ (r = RStuck -> o = DPass /\ exists mem off size code, code <> 0 /\ In (CMap mem off size code) calls).
+  let '(v', run', r, calls, dr) := dstep c v run o f in r <> RPanic /\ r <> RStuck.
 Proof using Ha.
   intros HI HM HB Hr Hok Htm Hbal Hlive. unfold dstep.
   set (ms0 := m_mems (v_m v)).
@@ -492,38 +523,29 @@ Proof using Ha.
   assert (Hlive0 : dop_live v0 run o).
   { destruct o; exact Hlive. }
   pose proof (dexec_np ms0 G v0 run o I0 Hr0 Hok0 Htm Hbal Hlive0) as E.
-  assert (Ho : forall w r1 dr1, dexec c v0 run o = (w, r1, dr1) -> snd (fst (w, r1, dr1)) = STUCK -> o = DPass).
-  { intros w r1 dr1 Ed Es. cbn in Es. destruct o as [flags pool mb ma| |ds|]; [|reflexivity| |]; exfalso; cbn [dexec] in Ed.
-    - assert (N : npu (snd (defrag_begin c v0 flags pool mb ma))).
-      { unfold defrag_begin. destruct (_ || _); [apply npu_er|]. destruct (_ =? 3); [apply npu_er|].
-        destruct (match pool with Some uid => list_is_linear v0 (LPool uid) | None => false end); [apply npu_er|].
-        destruct (negb _); [apply npu_er|apply npu_ok]. }
-      destruct (defrag_begin c v0 flags pool mb ma) as (v1 & r). cbn [snd] in N. destruct N as (_ & N2).
-      destruct r as [rn|code| |]; injection Ed as _ Er _; congruence.
-    - destruct run as [rn|]; [|destruct Hlive].
-      assert (HG0 : forall i dc m, nth_z (dr_ctxs rn) i = Some dc -> In m (Defrag.c_moves (dc_ctx dc)) -> G (src_of m) = 0 /\ G (tmp_of m) = 0).
-      { intros i dc m Hn Hm. split; [eapply Hbal; eauto|eapply Htm; eauto]. }
-      pose proof (defrag_end_np c Hc Hmax Hlarge ms0 G v0 rn ds I0 Hr0 HG0) as N.
-      destruct (defrag_end c v0 rn ds) as ((v1 & rn') & r). cbn [snd] in N. destruct N as (_ & N2).
-      destruct r as [b|code| |]; injection Ed as _ Er _; congruence.
-    - destruct run as [rn|]; [|destruct Hlive]. destruct (defrag_finish v0 rn) as (v1 & st). injection Ed as _ Er _. congruence. }
-  destruct (dexec c v0 run o) as (((v1 & run1) & r) & dr) eqn:Ed. destruct E as (E1 & E2).
-  split; [destruct r as [[]|code| |]; cbn; congruence|].
-  intros Hs. assert (Er : r = STUCK) by (destruct r as [[]|code| |]; cbn in Hs; congruence).
-  split; [apply (Ho _ _ _ eq_refl); cbn; exact Er|].
-  destruct (E2 Er) as (mem & off & size & code & Hc0 & Hin). exists mem, off, size, code. split; [exact Hc0|]. apply -> in_rev. exact Hin.
+  destruct (dexec c v0 run o) as (((v1 & run1) & r) & dr) eqn:Ed. cbn [fst snd] in E. destruct E as (E1 & E2).
+  split; destruct r as [[]|code| |]; cbn; congruence.
 Qed.
 
-(* C13 for the defragmentation calls, along every history of the domain *)
-Theorem dstep_never_panics v run G o f v' run' r calls dr :
+(* C13 for the defragmentation calls, along every history of the domain: never a panic, never outside the model *)
+Theorem dstep_never_fails v run G o f v' run' r calls dr :
   reachDB c v run G -> dop_ok v run o -> dop_bal G run o -> dop_live v run o ->
-  dstep c v run o f = (v', run', r, calls, dr) ->
-  r <> RPanic /\ (r = RStuck -> o = DPass /\ exists mem off size code, code <> 0 /\ In (CMap mem off size code) calls).
+  dstep c v run o f = (v', run', r, calls, dr) -> r <> RPanic /\ r <> RStuck.
 Proof using Ha.
   intros R Hok Hbal Hlive Hs.
   pose proof (reachDB_reachDA c Ha _ _ _ R) as RA. destruct (reachDA_inv c Ha v run RA) as (HI & Hr).
   destruct (reachDB_inv c Ha v run G R) as (HB & Htm).
   pose proof (dstep_np G v run o f HI (reachDA_map c Ha v run RA) HB Hr Hok Htm Hbal Hlive) as P. rewrite Hs in P. exact P.
+Qed.
+
+(* the earlier, weaker form (from when a vkMapMemory failing inside BeginDefragPass left the model); kept under its name *)
+Theorem dstep_never_panics v run G o f v' run' r calls dr :
+  reachDB c v run G -> dop_ok v run o -> dop_bal G run o -> dop_live v run o ->
+  dstep c v run o f = (v', run', r, calls, dr) ->
+  r <> RPanic /\ (r = RStuck -> o = DPass /\ exists mem off size code, code <> 0 /\ In (CMap mem off size code) calls).
+Proof using Ha.
+  intros R Hok Hbal Hlive Hs. destruct (dstep_never_fails v run G o f v' run' r calls dr R Hok Hbal Hlive Hs) as (A & B).
+  split; [exact A|]. intros E. contradiction.
 Qed.
 
 (* an ordinary API call while a defragmentation is running *)
